@@ -185,14 +185,14 @@ def run(eng, rep) -> None:
     if read_helper is not None:
         memo = [norm(d, 60) for d in read_helper.node.decorator_list if any(t in norm(d, 60) for t in ("lru_cache", "cache", "memoize", "memoise"))]
         for d in memo:
-            rep.violation("R20.2", read_helper.file, read_helper.qual, "@" + d, "the module text is memoised per path for the whole process: a second load after the module file changed (or of another project at the same relative path) combines the fresh top-level file with the stale module text")
+            rep.violation("R20.2", read_helper.file, read_helper.qual, "@" + d, "the module text is memoised per path for the whole process: a second load after the module file changed (or of another project at the same relative path) combines the fresh top-level file with the stale module text")["construct_level"] = True
         from ..dataflow import stores_in as _stores
         for kind, tgt, st in _stores(read_helper.node):
             root = tgt
             while isinstance(root, (ast.Attribute, ast.Subscript)):
                 root = root.value
             if isinstance(root, ast.Name) and root.id in read_helper.module.assigns and root.id not in read_helper.local_names():
-                rep.violation("R20.2", read_helper.file, read_helper.qual, norm(st, 60), "module text is kept in module-level object '%s' between loads: a later load sees the text of an earlier one" % root.id)
+                rep.violation("R20.2", read_helper.file, read_helper.qual, norm(st, 60), "module text is kept in module-level object '%s' between loads: a later load sees the text of an earlier one" % root.id)["construct_level"] = True
     if ctor is None or not opens:
         raise AnalysisError("anchor vanished: nested transformer construction / module read in the import callback")
     # R20.2 - the path expression is the argument of the read
